@@ -193,6 +193,7 @@ func main() {
 	tier := flag.String("tier", tierDef, "quick|thorough")
 	only := flag.String("only", "", "comma separated subset of parts: batcher,polling,ws,wt,wte2e,cli")
 	replay := flag.String("replay", "", "replay file written by an earlier run")
+	flag.Int("procs", 0, "accepted for uniformity with the other checks (the batcher part uses up to 8 goroutines)")
 	flag.Parse()
 
 	r := vx.NewReport("C13", *tier, "exploration")
